@@ -68,6 +68,7 @@ def h_integer(sym, scaling="linear", lower=0, upper=5, symbolic_bounds=False, ac
                 upper = k
     kw = {}
     if active:
+        sym.assume(upper - lower >= 2)
         kw = dict(active_lower_bound=lower + 1, active_upper_bound=upper - 1)
     r = HyperparameterRangeInteger("n", lower, upper, _scaling(scaling), **kw)
     u = sym.real("u", -EPS, 1.0 + EPS)
@@ -250,6 +251,9 @@ def obligations(tier):
     obs.append(Ob("C07.b[integer,linear,symbolic-bounds]", "props.c07:h_integer", dict(scaling="linear", symbolic_bounds=True), bounds=dict(bounds="ints in [-4,4]"),
                   goals=("end",), split=(("lower", tuple(range(-4, 5))),), budget_s=900))
     # (integer / finite ranges with log scaling need the VALUES of exp, not only its monotonicity: outside, see ASSUME)
+    obs.append(Ob("C07.b[integer,linear,active,symbolic-bounds]", "props.c07:h_integer", dict(scaling="linear", symbolic_bounds=True, active=True),
+                  bounds=dict(bounds="ints in [-4,4], upper >= lower + 2", active="lower+1 .. upper-1 (includes 0 and negative bounds)"),
+                  goals=("end", "active"), split=(("lower", tuple(range(-4, 3))),), budget_s=900))
     obs.append(Ob("C07.b[integer,linear,active,0..6]", "props.c07:h_integer", dict(scaling="linear", lower=0, upper=6, active=True), bounds=dict(lower=0, upper=6, active="1..5"),
                   goals=("end", "active"), budget_s=600))
     for (lo, hi, size, lg, ci) in [(0.1, 1.0, 4, False, False), (1, 9, 5, False, True), (2.0, 2.0, 1, False, False), (0.0, 5.0, 6, False, True)]:
